@@ -704,7 +704,7 @@ def _run(ck, env):
                                timeout=ck.pick(600, 3000), env=java)
         for consts, inv in GUARDS:
             jobs[("guard", inv)] = ex.submit(tlc.run, "SyncBase_MC", cfg_text=mc_cfg(consts, 3, 2, 2, 3), workers=1, timeout=600, env=java)
-        nsim = ck.pick(120, 1500)
+        nsim = ck.pick(120, 1000)
         D = ck.pick(22, 30)
         for kind in ("vcs", "rsync", "ts"):
             n = nsim if kind != "vcs" else nsim // 2
@@ -749,14 +749,14 @@ def _run(ck, env):
         s0 = sel[len(sel) // 3]
         ck.sample(dict(direction="spec->code", uri="".join(s0["uri"]), cls=s0["got_cls"], effective="".join(s0["got_uri"]), uid=s0["got_uid"]))
     # ---- 3. code -> spec, pure part ----
-    for _ in range(ck.pick(800, 20000)):
+    for _ in range(ck.pick(800, 8000)):
         case = random_select_case(r_)
         events.append(run_select(env, case, tid))
         meta[(tid, 0)] = dict(case=case)
         ck.count()
         ck.nontriv(("rsel", "".join(case["uri"]), tuple(case["bins"])))
         tid += 1
-    for _ in range(ck.pick(200, 4000)):
+    for _ in range(ck.pick(200, 1500)):
         case = random_detect_case(r_)
         events.append(run_detect(env, case, tid))
         meta[(tid, 0)] = dict(case=case)
@@ -798,7 +798,7 @@ def _run(ck, env):
 
     # ---- 5. code -> spec, random worlds and histories ----
     events, meta = [], {}
-    for _ in range(ck.pick(250, 4000)):
+    for _ in range(ck.pick(250, 2500)):
         params = random_world(r_)
         acts = [full_action(a) for a in random_history(r_, params, r_.randint(2, 6))]
         try:
